@@ -36,6 +36,9 @@ CLAIMED = {
  "C20": ("all-paths emission counting + argument provenance + bound-method/closure resolution + kind-tag dispatch agreement + life-cycle typestate with lockset (blocked-wait rule) over go/ssa",
          "Static: Sample emits rtt/in-flight once each with the parameters and the drop counter iff didDrop; every sampler-owning OnSample calls Sample exactly once with its own parameters; strategy emissions carry the decision's counter (post-increment on grants); gauge suppliers are bound to the constructed object and limit gauges read the enforced-limit field; both registries dispatch a listener's kind tag to the backend call of the same kind under prefix+ID and reuse existing listeners; Start spawns once and sets started, Stop signals, clears and awaits outside any mutex the poller takes, the loop returns on the stop signal and gauges are polled only inside it. Units and poll-time numeric equality are not covered.",
          "5/C20"),
+ "C18": ("mod/ref (written-field) sets through owned sub-measurements vs Reset's re-initialised set, constructor-value agreement, all-paths flag-polarity check over go/ssa",
+         "Static, structural clauses only: Reset re-initialises every field Add/Update can write (followed through owned sub-measurements) to the constructor's initial value; no ImmutableSampleWindow method stores through its receiver and the folds return new values; Add's flag is true or an old != new comparison whenever the reported field can change (never old == new); SingleMeasurement.Add stores exactly its argument. The numeric clauses of the property (means, hull bounds, variance sign, percentile accuracy) are not applicable to this technique.",
+         "5/C18"),
 }
 
 PENDING_REASON = "check not built yet in this session; see DESIGN.md section 5 for the planned static obligations"
